@@ -2,6 +2,7 @@ import HC.Lib.H11M
 import HC.Stream.Http
 import HC.Stream.Ws
 import HC.Proto.Heads
+import HC.Extracted.ReqGlue
 /-!
 # Model of `hypercorn/protocol/h11.py` (`H11Protocol`) over the library machine `H11M`
 
@@ -93,6 +94,7 @@ structure St where
   pc : Pc := .idle
   terminated : Bool := false
   switched : Bool := false               -- the wrapper replaced this protocol by H2Protocol
+  closed : Bool := false                 -- `self.closed`: `handle(Closed)` has run (nothing further will be served)
   spawns : Nat := 0                      -- ghost
   cycles : Nat := 0                      -- ghost: successful start_next_cycle calls
 deriving Repr, DecidableEq
@@ -163,7 +165,7 @@ def maybeRecycle (st0 : St) : St Ã— List Out :=
       ({ st with lib := lib', canRead := true, cycles := st.cycles + 1, pc := if st.pc == .parked then .inLoop else st.pc },
         o1 ++ [.startNextCycle true, .upUpdated true])
     | none => (st, o1 ++ [.startNextCycle false, .upClosed])
-  else ({ st with canRead := true, pc := if st.pc == .parked then .inLoop else st.pc }, o1 ++ [.upClosed])
+  else ({ st with closed := true, canRead := true, pc := if st.pc == .parked then .inLoop else st.pc }, o1 ++ [.upClosed])
 
 /-- `stream_send(event)` for the events of an HTTP stream; returns `raised = true` when a LocalProtocolError escapes -/
 def httpStreamSend (cfg : Cfg) (st : St) : Http.Ev â†’ St Ã— List Out Ã— Bool
@@ -233,7 +235,8 @@ def decodeAsciiUpper (b : Bytes) : String := Bytes.toString (Bytes.upper b)
 def validServerName (cfg : Cfg) (hs : Headers) : Bool :=
   if cfg.serverNames.isEmpty then true
   else
-    let host := ((hs.find? (fun h => Bytes.lower h.1 == "host".b)).map (Â·.2)).getD []
+    -- `for name, value in request.headers: if <ReqGlue.serverNameKey name>: host = value.decode(); break` (test extracted)
+    let host := ((hs.find? (fun h => ReqGlue.serverNameKey h.1)).map (Â·.2)).getD []
     cfg.serverNames.contains host
 
 /-- `_check_protocol`: h2c upgrade / prior-knowledge preface -/
@@ -320,8 +323,9 @@ def onLibEvBody (cfg : Cfg) (st : St) (o0 : List Out) (e : LibEv) : Option (St Ã
           some ({ st2 with keepAliveRequests := st2.keepAliveRequests + 1 },
             o0 ++ [.upUpdated false] ++ (if ok then [.spawn oid sc] else []) ++ outs)
   | .paused =>
-    -- `await can_read.clear(); await can_read.wait()`
-    some ({ st with canRead := false, pc := .parked }, o0)
+    -- `if self.closed: break` else `await can_read.clear(); await can_read.wait()`
+    if st.closed then some ({ st with pc := .idle }, o0)
+    else some ({ st with canRead := false, pc := .parked }, o0)
   | .connClosed =>
     match H11M.recvClosed st.lib with
     | none => none
@@ -379,7 +383,10 @@ def step (cfg : Cfg) (token : Bytes â†’ Bytes) (ext : Option Bytes) (st : St) : 
   | .ev e => (onLibEv cfg st e).map (fun (s, o) => (s, o, none))
   | .sendHttp i m => some (appSendHttp cfg st i m)
   | .sendWs i m => some (appSendWs cfg token ext st i m)
-  | .closed => let (s, o) := closeStream st; some (s, o, none)
+  | .closed =>
+    -- `self.closed = True; _close_stream(); can_read.set()` (a parked reader is released)
+    let (s, o) := closeStream st
+    some ({ s with closed := true, canRead := true, pc := if s.pc == .parked then .inLoop else s.pc }, o, none)
   | .terminate => some ({ st with terminated := true }, [], none)
 
 end HC.Proto.H11
